@@ -2,6 +2,7 @@ import Driver.Proto
 import LadimModel.Grid.ComputeW
 import LadimModel.Grid.Fjord
 import LadimModel.Grid.Sample
+import LadimModel.Grid.Neighbours
 namespace Driver
 open Ladim
 
@@ -108,4 +109,30 @@ def hGsVdLevel : Handler := do
 
 def gridHandlers : List (String × Handler) :=
   [("cw.compute", hComputeW), ("fjord.dilate", hFjordDilate), ("fjord.index", hFjordIndex), ("gs.cell", hGsCell), ("gs.z2s", hGsZ2s), ("gs.tri", hGsTri), ("gs.bil", hGsBil), ("gs.vdlevel", hGsVdLevel)]
+end Driver
+
+namespace Driver
+open Ladim
+
+def getMask : P Nb.Mask := do
+  let r ← getN; let c ← getN
+  let mut a : Array Bool := Array.mkEmpty (r * c)
+  for _ in [0:r * c] do
+    a := a.push (← getB)
+  pure { rows := r, cols := c, val := fun j i =>
+    if 0 ≤ j ∧ j < r ∧ 0 ≤ i ∧ i < c then a.getD (j.toNat * c + i.toNat) false else false }
+
+/-- `nb.close land(rows cols bits) ic jc` -/
+def hNbClose : Handler := do
+  let m ← getMask; let ic ← getI; let jc ← getI
+  pure (outB (Nb.isCloseToLand m ic jc))
+
+/-- `nb.nearest masked x y ic jc` -/
+def hNbNearest : Handler := do
+  let m ← getMask; let x ← getF; let y ← getF; let ic ← getI; let jc ← getI
+  match Nb.nearestUnmasked m x y ic jc with
+  | some (i, j) => pure s!"{i} {j}"
+  | none => pure "none"
+
+def nbHandlers : List (String × Handler) := [("nb.close", hNbClose), ("nb.nearest", hNbNearest)]
 end Driver
